@@ -218,6 +218,16 @@ def build_inputs(ctx, gr, n_gen, n_mut, n_mutgen, n_grid=0):
     for i in range(n_grid // 8):
         text, ops = peg_gen.mutate(rng, rng.choice(grid), pool, n_ops=1, fragment=fragment)
         cases.append({"name": "mutgrid:%d" % i, "stream": "mutated-typed-grid", "files": {"main.ms": text}, "entry": "main.ms", "ops": ops})
+    # exhaustive: control statements in every enclosing-construct combination (see peg_gen.control_nesting_cases)
+    seen_ctl = set()
+    ctl = peg_gen.control_nesting_cases(3, ["break", "continue", "return", "return 1"]) + peg_gen.control_nesting_cases(2)
+    if not ctx.quick():
+        ctl += peg_gen.control_nesting_cases(3)
+        ctl += [c for c in peg_gen.control_nesting_cases(4, ["break", "continue"]) if c[0].count(">") == 3]
+    for name, t in ctl:
+        if t not in seen_ctl:
+            seen_ctl.add(t)
+            cases.append({"name": "ctl:" + name, "stream": "control-nesting", "files": {"main.ms": t}, "entry": "main.ms"})
     for i in range(n_mutgen if gen_texts else 0):
         text, ops = peg_gen.mutate(rng, rng.choice(gen_texts), pool, fragment=fragment)
         cases.append({"name": "mutgen:%d" % i, "stream": "mutated-generated", "files": {"main.ms": text}, "entry": "main.ms", "ops": ops})
@@ -339,6 +349,12 @@ def run_search(ctx, binary, gr):
         found += 1
         ctx.report("failure-without-diagnostics", "compile exits 1 without printing any diagnostic for %s" % c["name"],
                    {"files": c["files"], "entry": c["entry"]})
+    ctx.cov["control_nesting"] = {
+        "rule": "EXHAUSTIVE stream: each control statement (break, continue, return, return <value>, ...) wrapped in every chain of enclosing "
+                "constructs {function literal, typed function literal, callback argument, method, constructor, class body, if, else, else-if, "
+                "while body, from body} of length 0..3 (quick: 4 core statements at depth <= 3, all %d statement forms at depth <= 2; "
+                "thorough: all forms at depth <= 3 and break/continue at depth 4)" % len(peg_gen.CONTROL_STMTS),
+        "cases": sum(1 for c in cases if c["stream"] == "control-nesting"), "wrappers": sorted(peg_gen.CONTROL_WRAPPERS)}
     ctx.cov["search"] = {"label": "SEARCH, not proof: exit-status observation of the real compiler",
                          "inputs_run": n, "by_exit": by_exit, "by_stream": by_stream, "slow_over_2s": slow[:10],
                          "distinct_failure_sites": sites, "timeout_s": TIMEOUT, "max_bytes": MAX_BYTES}
